@@ -11,6 +11,7 @@ Decided (provenance of the four numbers of every reported range, for all seven v
 Not decided: the integer arithmetic itself (+1/-1), i.e. that the numbers are right, only that they
 are computed from the right quantities.
 """
+import os
 import re
 
 from engine.cfg import cfg_of
@@ -289,9 +290,112 @@ def run(ctx, out, tier):
     return meta()
 
 
+def tagpos_model(ctx, out, rule):
+    """The position of a start tag inside its comment on a small model (engine.casewalk + strmodel): the
+    constructor of `BlockStart` is walked, helpers inlined, on concrete comment texts - a tag on the comment's
+    first line, a tag spanning two continuation lines, multi-byte text before and inside the tag on the first and on a
+    continuation line, CRLF line breaks - and the reported range is compared with the documented one: from the tag's `<` to its
+    `>`; line = comment's start line + line breaks before the offset; column = comment's start column + offset
+    on the first line, else the byte distance from the last line break before the offset.
+    True / False if decided, None if the model cannot follow the code."""
+    from engine import casewalk as CW
+    from engine import listmodel as LM
+    from engine import strmodel as SM
+    std = CW.std_hooks()
+    lm = LM.hooks()
+    sm = SM.hooks()
+    cands = [b for b in ctx.reachable_bodies() if b.promoted is None and b.kind in ("Fn", "AssocFn") and b.local_ty(0) == "blockwatch::block_parser::BlockStart"
+             and any("Comment" in b.local_ty(i) for i in range(1, b.argc + 1)) and any(b.local_ty(i) == "std::ops::Range<usize>" for i in range(1, b.argc + 1))]
+    if len(cands) != 1:
+        return None
+    b0 = cands[0]
+    v = ctx.inl(b0, skip=lambda cb: False, tag="all-sugar", sugar=True)
+    pc = [i for i in range(1, v.argc + 1) if "Comment" in v.local_ty(i)][0]
+    pr = [i for i in range(1, v.argc + 1) if v.local_ty(i) == "std::ops::Range<usize>"][0]
+    L, C = 3, 5
+
+    def pos(l, c):
+        return CW.adt("blockwatch::Position", "Position", 0, [("line", CW.const(l)), ("character", CW.const(c))])
+
+    def spec(text, off):
+        before = text.encode()[:off]
+        k = before.rfind(b"\n")
+        if k < 0:
+            return (L, C + off)
+        return (L + before.count(b"\n"), off - k)
+    cases = []
+    for text in ("x <block a>", "ab\n  <block\n a> z", "\u00e9 <block>", "a\n\u00e9<block>", "/*\n<block k=v>\n*/", "x <block n=\"\u00e9\">", "a\n <block\n n=\"\u00e9\u00e9\"> y",
+                 "ab\r\n  <block k>", "a\r\nbc\r\n <block\r\n k=v> z"):
+        raw = text.encode()
+        a = raw.index(b"<")
+        b_ = raw.index(b">") + 1
+        cases.append((text, a, b_))
+    n = 0
+    bad = []
+    for text, a, b_ in cases:
+        results = set()
+
+        def hook(w, bb, t, argv, env):
+            for hk in (sm, lm, std):
+                r_ = hk(w, bb, t, argv, env)
+                if r_ is not None:
+                    return r_
+            if os.environ.get("BW_DEBUG_MODEL"):
+                print("tagpos model: unknown call", callee_name(t), [str(x)[:50] for x in argv])
+            return None
+        w = CW.Walk(ctx, v, [hook], max_states=6000)
+
+        def on_visit(bb, env):
+            tm = v.blocks[bb]["term"]
+            if tm and tm["k"] == "return":
+                r0 = w.deref_val(env, env.get(0, CW.TOP))
+                rng = w.deref_val(env, w.field(r0, "start_tag_position_range")) if r0[0] == "adt" else CW.TOP
+                got = []
+                for nm_ in ("start", "end"):
+                    p_ = w.deref_val(env, w.field(rng, nm_)) if rng[0] == "adt" else CW.TOP
+                    l_ = w.deref_val(env, w.field(p_, "line")) if p_[0] == "adt" else CW.TOP
+                    c_ = w.deref_val(env, w.field(p_, "character")) if p_[0] == "adt" else CW.TOP
+                    got.append((l_[1], c_[1]) if CW.is_const(l_) and CW.is_const(c_) else None)
+                results.add(tuple(got))
+        w.on_visit = on_visit
+        end_l, end_c = spec(text, len(text.encode()))
+        comment = CW.adt("blockwatch::language_parsers::Comment", "Comment", 0, [
+            ("position_range", CW.adt("std::ops::Range", "Range", 0, [("start", pos(L, C)), ("end", pos(end_l, end_c))])),
+            ("source_range", CW.adt("std::ops::Range", "Range", 0, [("start", CW.const(100)), ("end", CW.const(100 + len(text.encode())))])),
+            ("comment_text", CW.const(text))])
+        env = {pc: comment, pr: CW.adt("std::ops::Range", "Range", 0, [("start", CW.const(a)), ("end", CW.const(b_))])}
+        try:
+            w.explore(0, env)
+        except CW.Limit:
+            return None
+        if len(results) != 1 or any(x is None for x in next(iter(results))):
+            return None
+        got = next(iter(results))
+        want = (spec(text, a), spec(text, b_ - 1))
+        if got == want:
+            n += 1
+        else:
+            bad.append((text, a, b_, got, want))
+    for text, a, b_, got, want in bad[:2]:
+        out.viol(rule, "%s|model|%s" % (rule, "first-line" if "\n" not in text[:a] else "continuation"), ctx.where(b0),
+                 "start tag at bytes %d..%d of the comment text %r (comment at %d:%d): reported from %d:%d to %d:%d; its `<` is at %d:%d and its `>` at %d:%d (byte columns; a continuation line's column counts from the last line break before the tag)" % (
+                     a, b_, text, L, C, got[0][0], got[0][1], got[1][0], got[1][1], want[0][0], want[0][1], want[1][0], want[1][1]))
+    out.inst(rule, n, 3, ["%d comment texts: first line / continuation lines / multi-byte text before the tag" % len(cases)], exhaustive=True)
+    return not bad
+
+
 def check_tagpos(ctx, out, rule):
     """A tag's position inside its comment: line = comment start line + lines before the tag; column
     on a continuation line = offset - position of the LAST newline before it."""
+    tr = out.trial()
+    try:
+        verdict = tagpos_model(ctx, tr, rule)
+    except Exception as e:      # noqa: BLE001
+        ctx.view_fallbacks.append("%s: small-model analysis failed (%s: %s)" % (rule, type(e).__name__, e))
+        verdict = None
+    if verdict is not None:
+        out.adopt(tr)
+        return
     n_tp = 0
     f = ctx.facts
     cands = [b for b in f.bodies.values() if b.promoted is None and b.local_ty(0) == "blockwatch::Position"
